@@ -46,6 +46,11 @@ Definition row_shape (row : nat) : list atom :=
   | 17 => [Ck]                         (* Future.wait() on a finished future *)
   | 18 => [CkIf; Effect; ShieldY]      (* functools.reduce(): check first, consume / call, always yield (F22) *)
   | 22 => [CkIf; ShieldY]              (* functools.reduce() with zero callback invocations *)
+  (* the same operations on objects created while no event loop was running (the *Adapter classes) *)
+  | 23 => [Ck]                         (* Event() created and set() outside the loop: wait() *)
+  | 24 => [CkIf; Effect; ShieldY]      (* Lock() created outside the loop: acquire() uncontended *)
+  | 25 => [CkIf; Effect; ShieldY]      (* Semaphore(1) created outside the loop: acquire() *)
+  | 26 => [CkIf; Effect; ShieldY]      (* CapacityLimiter(1) created outside the loop: acquire() *)
   | 21 => [CkIf; Effect]               (* Condition.wait() in a cancelled scope while another task queues on the lock *)
   | 19 => [Ck]                         (* await Future on a finished future *)
   | 20 => [Ck]                         (* await Future on a failed / cancelled future: raises after the checkpoint *)
@@ -64,7 +69,7 @@ Definition has_yield (l : list atom) : bool :=
 Definition count_effects (l : list atom) : nat :=
   length (filter (fun a => match a with Effect => true | _ => false end) l).
 
-Definition checked_rows : list nat := [1; 2; 3; 4; 5; 6; 7; 8; 10; 11; 12; 13; 14; 15; 16; 17; 18; 19; 20; 22].
+Definition checked_rows : list nat := [1; 2; 3; 4; 5; 6; 7; 8; 10; 11; 12; 13; 14; 15; 16; 17; 18; 19; 20; 22; 23; 24; 25; 26].
 
 (* codec: [row; cancelled] -> [raised; effects; yields >= 1] *)
 Definition run_case (c : list Z) : list Z :=
